@@ -1,14 +1,14 @@
 SPECIFICATION Spec
 CONSTANTS
   NProc = 2
-  NGuards = 6
-  NAsgs = 6
-  NInvs = 5
+  NGuards = 2
+  NAsgs = 3
+  NInvs = 2
   TwoArr = FALSE
   Record = FALSE
   MaxSteps = 0
-  WpMulti = 2
-  RunSet = 0
+  WpMulti = 0
+  RunSet = 1
   DoEmit = FALSE
   DoWp = TRUE
   DoRun = TRUE
